@@ -131,6 +131,18 @@ def r1_protocol(ctx):
     gets = q.call_exprs(b, "Tree::get")
     keys = {sig(e[2][1]) for bi, e in gets}
     r.check(keys == {_countkey("$2")}, "cc/key", "coin_count reads the same key", "coin_count reads %s" % keys)
+    # no entry ⇔ count 0 (insert_coin_count deletes a zero count), an entry decodes to its count: decided by forcing the emptiness test of the value read
+    emp = [(bi, e) for bi, e in q.call_exprs(b, "is_empty") if "Tree::get(" in sig(e)]
+    if len(emp) == 1:
+        rets_ = q.ret_assignments(b)
+        f = force(b, {emp[0][1]: 1})
+        v_abs = {sig(q.novers(x[2])) for x in rets_ if x[0] in f.reach}
+        r.check(v_abs == {"0"}, "cc/absent=>0", "no entry reads as count 0", "with no count entry coin_count answers %s" % sorted(v_abs), b.where(emp[0][0]))
+        f = force(b, {emp[0][1]: 0})
+        v_pre = {sig(q.novers(x[2])) for x in rets_ if x[0] in f.reach}
+        r.check(all("deserialize" in v and "Tree::get" in v for v in v_pre) and bool(v_pre), "cc/present=>decoded", "an entry reads as the count it encodes", "with a count entry coin_count answers %s" % sorted(v_pre), b.where(emp[0][0]))
+    else:
+        r.undecided("cc/absent=>0", "coin_count's emptiness test not read (%d candidates)" % len(emp))
     b = ctx.body(CM + "get_coin", r)
     gets = q.call_exprs(b, "Tree::get")
     keys = {sig(e[2][1]) for bi, e in gets}
